@@ -64,9 +64,15 @@ def corrupt_archive(src, dst, how, r_seed):
     r = random.Random(r_seed)
     kind = how["kind"]
     if kind == "truncate":
-        data = pathlib.Path(src).read_bytes()
-        cut = max(1, int(len(data) * how.get("frac", 0.5)))
-        pathlib.Path(dst).write_bytes(data[:cut])
+        # The tar stream is cut, inside a valid gzip container.  (Cutting the compressed bytes makes the
+        # real tar race with its gzip child - how many members it extracts before noticing differs from
+        # run to run - which no seed can replay; the truncated *tar* is deterministic and exercises the
+        # same paths: some members extracted, then a failing tar.)
+        raw = gzip.decompress(pathlib.Path(src).read_bytes())
+        cut = max(1, int(len(raw) * how.get("frac", 0.5)))
+        with open(dst, "wb") as f:
+            with gzip.GzipFile(fileobj=f, mode="wb", mtime=0) as gz:
+                gz.write(raw[:cut])
         return
     if kind == "garbage":
         pathlib.Path(dst).write_bytes(b"this is not a tar file" * 10)
